@@ -69,6 +69,15 @@ def run(ctx):
     for k in range(ngen):
         fn, src = gen_pkg(ctx.rng, k)
         dirs.append(sway.write_pkg(base, "c15g%02d" % k, {fn: src}, entry=fn))
+    # functions with 38-75 simultaneously live values in several shapes (straight-line, loops): the
+    # register allocator must spill and break ties between spill candidates (generator of C08)
+    try:
+        from props import c08 as C08
+        for k in range(2 if ctx.quick else 8):
+            d, _ = C08.gen_spill_pkg(ctx.rng, base, "c15sp%02d" % k, 3 if ctx.quick else 6)
+            dirs.append(d)
+    except Exception as e:
+        ctx.log("spill packages not generated: %r" % (e,))
     # corpus: e2e packages that only need std by path
     corpus_root = os.path.join(REPO, "test/src/e2e_vm_tests/test_programs/should_pass/language")
     cands = sorted(glob.glob(os.path.join(corpus_root, "*", "Forc.toml")))
